@@ -21,7 +21,25 @@ func foldRangeRule(c *Ctx, r *Report, rule, fname, consequence string) {
 	r.fn(fname)
 	n := 0
 	var problems []string
-	for _, f := range withAnon(fn) {
+	var fns []*ssa.Function
+	seenFn := map[*ssa.Function]bool{}
+	var collect func(f *ssa.Function, depth int)
+	collect = func(f *ssa.Function, depth int) {
+		if f == nil || seenFn[f] || depth > 2 || len(f.Blocks) == 0 || f.Pkg != fn.Pkg {
+			return
+		}
+		seenFn[f] = true
+		for _, a := range withAnon(f) {
+			fns = append(fns, a)
+			allInstrs(a, func(in ssa.Instruction) {
+				if ci, ok := in.(ssa.CallInstruction); ok {
+					collect(ci.Common().StaticCallee(), depth+1)
+				}
+			})
+		}
+	}
+	collect(fn, 0)
+	for _, f := range fns {
 		allInstrs(f, func(in ssa.Instruction) {
 			add, ok := in.(*ssa.BinOp)
 			if !ok || (add.Op != token.ADD && add.Op != token.OR) {
@@ -37,6 +55,9 @@ func foldRangeRule(c *Ctx, r *Report, rule, fname, consequence string) {
 			}
 			n++
 			x := add.X
+			if bt.Kind() == types.Int32 {
+				problems = append(problems, fmt.Sprintf("%s: the fold works on runes (strings.Map / range over a string): an octet above 0x7f that is not valid UTF-8 is replaced by U+FFFD, so the folded name is a different name; DNS names are folded octet by octet (RFC 4343)", c.pos(add.Pos())))
+			}
 			lo, hi := int64(-1), int64(1<<40)
 			for _, fc := range factsAt(f, add.Block()) {
 				cmp, ok := fc.Atom.(*ssa.BinOp)
